@@ -97,6 +97,11 @@ def setable (e : Est) : List String :=
     | .param _ => if e.mayWrite.contains a then none else some a
     | _ => none
 
+/-- `Algorithm.set_params({name: v})` (sknetwork/base.py): accepted iff `name` is a parameter of `__init__` other than
+    `random_state` / `verbose` *and* an attribute of that very name exists on the object (otherwise ValueError) -/
+def setParamAccepted (e : Est) (name : String) : Bool :=
+  e.params.contains name && name != "random_state" && name != "verbose" && e.initAttrs.contains name
+
 /-- **no stale attribute**: whatever `fit` may assign it assigns on every normal exit (logs excepted) -/
 def noStale (e : Est) : Bool :=
   e.mayWrite.all fun a => e.mustWrite.contains a || e.logs.contains a
